@@ -325,7 +325,15 @@ func verifHarnessCrash() {
 			verifAssert(db2.Put(kp.keys[0], v) == nil, id+".put-after-recovery-err")
 		}
 		d1 := vDump(db2, kp)
-		verifAssert(db2.Close() == nil, id+".close-after-recovery-err")
+		if verifParam("aftercrash") == 1 {
+			// the recovered database wrote on and now dies as well (process death: every acknowledged write
+			// survives, nothing is closed or truncated) - the SECOND recovery must cope with what the first one and
+			// the later writes left behind
+			opts.DirPath = verifCrashCopy(opts.DirPath)
+			verifReach("second-crash-after-recovery")
+		} else {
+			verifAssert(db2.Close() == nil, id+".close-after-recovery-err")
+		}
 		db3, err := Open(opts)
 		if err != nil {
 			verifNote("second-open-err", err)
